@@ -1,6 +1,7 @@
 //! Shared kit for all verification workers: PRNG, JSON, report protocol, argument parsing,
 //! stall scheduler on top of the atomics hook, timestamps.
 pub mod args;
+pub mod campaign;
 pub mod json;
 pub mod report;
 pub mod rng;
